@@ -53,6 +53,7 @@ func runC20(c *Ctx) {
 	phase("cycles", c20Cycles)
 	phase("indent", c20IndentSweep)
 	phase("sweep", c20PanicSweep)
+	phase("optpos", c20OptionPositionSweep)
 }
 
 func c20Workers(c *Ctx) int {
@@ -2192,4 +2193,240 @@ func c20MarshalLeafSweep(c *Ctx) {
 	wg.Wait()
 	c.Note("marshal-leaf sweep: time per entry point (summed) %v", apiTime)
 	c.Note("marshal-leaf sweep: %d innermost values × %d wrappers × nestings %v: %d cases", len(leaves), len(wrappers), totals, len(cases))
+}
+
+// =====================================================================================
+// (c') per-call options × coder creation options × coder position, for MarshalEncode and UnmarshalDecode of
+// plain values (no user-defined methods: a method that breaks the token contract is another matter, C02/D9).
+// Any panic is a violation; at a member-name position a change of AllowDuplicateNames / AllowInvalidUTF8 must be
+// answered with the documented error (the error values are unexported: the message text is matched — the one
+// place where C20 reads a message), a change of whitespace formatting likewise for MarshalEncode.
+// =====================================================================================
+
+type c20CoderOpts struct {
+	dup, utf8 bool
+	ws        string // "", "multiline", "colon", "comma"
+}
+
+func (o c20CoderOpts) opts() []jsontext.Options {
+	out := []jsontext.Options{jsontext.AllowDuplicateNames(o.dup), jsontext.AllowInvalidUTF8(o.utf8)}
+	switch o.ws {
+	case "multiline":
+		out = append(out, jsontext.Multiline(true))
+	case "colon":
+		out = append(out, jsontext.SpaceAfterColon(true))
+	case "comma":
+		out = append(out, jsontext.SpaceAfterComma(true))
+	}
+	return out
+}
+
+// a per-call option: how it changes the effective settings
+type c20CallOpt struct {
+	name  string
+	opt   func() json.Options
+	apply func(o *c20CoderOpts, ws *[3]bool) // ws = multiline, colon, comma
+}
+
+var c20CallOpts = []c20CallOpt{
+	{"dup=false", func() json.Options { return jsontext.AllowDuplicateNames(false) }, func(o *c20CoderOpts, _ *[3]bool) { o.dup = false }},
+	{"dup=true", func() json.Options { return jsontext.AllowDuplicateNames(true) }, func(o *c20CoderOpts, _ *[3]bool) { o.dup = true }},
+	{"utf8=false", func() json.Options { return jsontext.AllowInvalidUTF8(false) }, func(o *c20CoderOpts, _ *[3]bool) { o.utf8 = false }},
+	{"utf8=true", func() json.Options { return jsontext.AllowInvalidUTF8(true) }, func(o *c20CoderOpts, _ *[3]bool) { o.utf8 = true }},
+	{"multiline=true", func() json.Options { return jsontext.Multiline(true) }, func(_ *c20CoderOpts, ws *[3]bool) { ws[0] = true }},
+	{"multiline=false", func() json.Options { return jsontext.Multiline(false) }, func(_ *c20CoderOpts, ws *[3]bool) { ws[0] = false }},
+	{"colon=true", func() json.Options { return jsontext.SpaceAfterColon(true) }, func(_ *c20CoderOpts, ws *[3]bool) { ws[1] = true }},
+	{"comma=false", func() json.Options { return jsontext.SpaceAfterComma(false) }, func(_ *c20CoderOpts, ws *[3]bool) { ws[2] = false }},
+	{"deterministic", func() json.Options { return json.Deterministic(true) }, func(*c20CoderOpts, *[3]bool) {}},
+}
+
+type c20Pos struct {
+	name     string
+	wantName bool
+	enc      func(e *jsontext.Encoder) error // tokens that bring an encoder there
+	text     string                          // input that brings a decoder there after `reads` ReadToken calls
+	reads    int
+}
+
+var c20Positions = []c20Pos{
+	{"top", false, func(*jsontext.Encoder) error { return nil }, `"v" 1`, 0},
+	{"after-top-value", false, func(e *jsontext.Encoder) error { return e.WriteToken(jsontext.Int(1)) }, `1 "v"`, 1},
+	{"object-name", true, func(e *jsontext.Encoder) error { return e.WriteToken(jsontext.BeginObject) }, `{"k":"v","k2":2}`, 1},
+	{"object-value", false, func(e *jsontext.Encoder) error {
+		if err := e.WriteToken(jsontext.BeginObject); err != nil {
+			return err
+		}
+		return e.WriteToken(jsontext.String("k0"))
+	}, `{"k0":"v","k":2}`, 2},
+	{"object-second-name", true, func(e *jsontext.Encoder) error {
+		for _, t := range []jsontext.Token{jsontext.BeginObject, jsontext.String("k0"), jsontext.Int(1)} {
+			if err := e.WriteToken(t); err != nil {
+				return err
+			}
+		}
+		return nil
+	}, `{"k0":1,"k":"v"}`, 3},
+	{"array", false, func(e *jsontext.Encoder) error { return e.WriteToken(jsontext.BeginArray) }, `["v",1]`, 1},
+	{"nested-object-name", true, func(e *jsontext.Encoder) error {
+		for _, t := range []jsontext.Token{jsontext.BeginObject, jsontext.String("a"), jsontext.BeginArray, jsontext.BeginObject} {
+			if err := e.WriteToken(t); err != nil {
+				return err
+			}
+		}
+		return nil
+	}, `{"a":[{"k":"v"}]}`, 4},
+}
+
+type c20PlainStruct struct {
+	A int    `json:"a"`
+	B string `json:"b,omitempty"`
+}
+
+func c20OptionPositionSweep(c *Ctx) {
+	values := []struct {
+		name string
+		v    any
+	}{
+		{"string", "k"}, {"string-invalid-utf8", "k\xff"}, {"int", 7}, {"struct", c20PlainStruct{A: 1}},
+		{"map", map[string]int{"a": 1, "b": 2}}, {"map-invalid-utf8-keys", map[string]int{"a\xff": 1, "a\xfe": 2}},
+		{"slice", []int{1}}, {"nil", nil}, {"*string", new(string)}, {"map[string]any", map[string]any{"x": map[string]any{"y": 1.0}}},
+	}
+	targets := []struct {
+		name string
+		mk   func() any
+	}{
+		{"*string", func() any { return new(string) }}, {"*int", func() any { return new(int) }},
+		{"*struct", func() any { return new(c20PlainStruct) }}, {"*map", func() any { return new(map[string]int) }},
+		{"*any", func() any { return new(any) }}, {"*[]any", func() any { return new([]any) }},
+		{"*jsontext.Value", func() any { return new(jsontext.Value) }},
+	}
+	var creations []c20CoderOpts
+	for _, d := range []bool{false, true} {
+		for _, u := range []bool{false, true} {
+			for _, w := range []string{"", "multiline", "colon", "comma"} {
+				creations = append(creations, c20CoderOpts{d, u, w})
+			}
+		}
+	}
+	// per-call option sets: none, every single option, every pair of options of different families
+	var callSets [][]c20CallOpt
+	callSets = append(callSets, nil)
+	for i, a := range c20CallOpts {
+		callSets = append(callSets, []c20CallOpt{a})
+		for _, b := range c20CallOpts[i+1:] {
+			if strings.Split(a.name, "=")[0] != strings.Split(b.name, "=")[0] {
+				callSets = append(callSets, []c20CallOpt{a, b})
+			}
+		}
+	}
+	check := func(op, id string, pos c20Pos, cr c20CoderOpts, set []c20CallOpt, marshal bool, err error) {
+		eff := cr
+		ws0 := [3]bool{cr.ws == "multiline", cr.ws == "colon", cr.ws == "comma"}
+		ws := ws0
+		for _, o := range set {
+			o.apply(&eff, &ws)
+		}
+		want := ""
+		switch {
+		case len(set) == 0:
+		case pos.wantName && eff.dup != cr.dup:
+			want = "cannot change duplicate name checks"
+		case pos.wantName && eff.utf8 != cr.utf8:
+			want = "cannot change UTF-8 checks"
+		}
+		_ = marshal // a change of whitespace formatting is swept for panics only (Multiline implies other flags at coder creation)
+		if want != "" {
+			c.Hit("optpos/expected=" + strings.Fields(want)[2])
+			if err == nil || !strings.Contains(err.Error(), want) {
+				got := "<nil>"
+				if err != nil {
+					got = trunc(err.Error(), 160)
+				}
+				c.Violate("documented-error-missing", op, []byte(id), map[string]any{"want": want, "got": got})
+			}
+		} else {
+			c.Hit("optpos/expected=none")
+		}
+	}
+	afterError := os.Getenv("C20_AFTER_ERROR") == "1"
+	n := 0
+	for _, pos := range c20Positions {
+		for _, cr := range creations {
+			for _, set := range callSets {
+				var callOpts []json.Options
+				names := ""
+				for _, o := range set {
+					callOpts = append(callOpts, o.opt())
+					names += o.name + ","
+				}
+				idBase := fmt.Sprintf("pos=%s coder={dup=%v utf8=%v ws=%s} call={%s}", pos.name, cr.dup, cr.utf8, cr.ws, names)
+				for _, val := range values {
+					id := idBase + " value=" + val.name
+					op := "optpos/MarshalEncode/" + pos.name
+					var err error
+					pv := guard(func() {
+						var bb bytes.Buffer
+						e := jsontext.NewEncoder(&bb, cr.opts()...)
+						if perr := pos.enc(e); perr != nil {
+							fail("optpos: cannot reach %s: %v", pos.name, perr)
+						}
+						err = json.MarshalEncode(e, val.v, callOpts...)
+						// the coder must remain usable: the options are restored, further calls do not panic.
+						// After a FAILED call the coder is left inside the half-written value; going on from there is
+						// swept only with C20_AFTER_ERROR=1 (open finding D12: a `}` after a failed call that had switched
+						// AllowDuplicateNames on panics in objectNamespaceStack.pop — see the report).
+						if err == nil || afterError {
+							_ = json.MarshalEncode(e, "next")
+							_ = e.WriteToken(jsontext.Int(2))
+							_ = e.WriteToken(jsontext.EndObject)
+							_ = e.WriteToken(jsontext.EndArray)
+							_ = e.StackPointer()
+						}
+					})
+					n++
+					c.Case("optpos|"+op+"|"+id, len(set) > 0)
+					if pv != nil {
+						c.Hit("optpos/panic")
+						c.Panic(op, []byte(id), pv, nil)
+						continue
+					}
+					check(op, id, pos, cr, set, true, err)
+				}
+				for _, tg := range targets {
+					id := idBase + " target=" + tg.name
+					op := "optpos/UnmarshalDecode/" + pos.name
+					var err error
+					pv := guard(func() {
+						d := jsontext.NewDecoder(strings.NewReader(pos.text), cr.opts()...)
+						for i := 0; i < pos.reads; i++ {
+							if _, rerr := d.ReadToken(); rerr != nil {
+								fail("optpos: cannot reach %s: %v", pos.name, rerr)
+							}
+						}
+						err = json.UnmarshalDecode(d, tg.mk(), callOpts...)
+						if err == nil || afterError {
+							var x any
+							_ = json.UnmarshalDecode(d, &x)
+							for i := 0; i < 8; i++ {
+								if _, rerr := d.ReadToken(); rerr != nil {
+									break
+								}
+							}
+							_ = d.StackPointer()
+						}
+					})
+					n++
+					c.Case("optpos|"+op+"|"+id, len(set) > 0)
+					if pv != nil {
+						c.Hit("optpos/panic")
+						c.Panic(op, []byte(id), pv, nil)
+						continue
+					}
+					check(op, id, pos, cr, set, false, err)
+				}
+			}
+		}
+	}
+	c.Note("option × position sweep: %d positions × %d coder option sets × %d per-call option sets × (%d values + %d targets) = %d calls",
+		len(c20Positions), len(creations), len(callSets), len(values), len(targets), n)
 }
